@@ -413,6 +413,23 @@ def run(ck, ctx):
                 return meta_parts(n.args[1], depth + 1)
             if n.op == "DictComp":
                 return [("comp", n)]
+            if n.op == "Loop" and len(n.args) == 3:
+                # d = {...}; for k, v in items: [if c:] d[k] = v   is   {**d, **{k: v for k, v in items [if c]}}
+                it, init, body = n.args
+                conds = []
+                b = body
+                while b.op == "Phi":
+                    if b.args[2].op == "LoopVar" and b.args[2].attr == n.attr:
+                        conds.append(b.args[0])
+                        b = b.args[1]
+                    elif b.args[1].op == "LoopVar" and b.args[1].attr == n.attr:
+                        conds.append(I.mk("UnaryOp", (b.args[0],), "Not", b.site))
+                        b = b.args[2]
+                    else:
+                        break
+                if b.op == "Scatter" and b.attr is None and b.args[0].op == "LoopVar" and b.args[0].attr == n.attr:
+                    comp = I.mk("DictComp", (it, b.args[1], b.args[2], *conds), None, n.site)
+                    return meta_parts(init, depth + 1) + [("comp", comp)]
             return [("other", n)]
 
         def affixes(kel, it):
